@@ -456,6 +456,48 @@ func (sc *scenario) keyCheck(want string) {
 	}
 }
 
+// tailWait (op `tailwait d1,d2,…`; free running): the input of the header has been injected in full while the consumer was
+// not polling (the event queue filled up, scanInput blocked for longer than the escape timeout), its last read ended inside a
+// multi-byte character (or a marker), the consumer has resumed and the rest has been injected (op `inj`): everything must come
+// out as header events ++ d1,d2,… — "however the bytes are split across reads" (C11), "back-pressure, not loss" (C05).
+// Judged only when the main loop itself reports that the incomplete bytes never waited 35 ms or more for the next read
+// (mainWorstGap): beyond 50 ms the escape timeout legitimately delivers them as they are.
+func (sc *scenario) tailWait(tail []string) {
+	sc.tag("tail-wait")
+	want := append(append([]string{}, sc.exp...), tail...)
+	dl := time.Now().Add(escDeadline)
+	var ds []string
+	for {
+		ds = sc.inputDescs()
+		if len(ds) >= len(want) || time.Now().After(dl) {
+			break
+		}
+		time.Sleep(2 * time.Millisecond)
+	}
+	time.Sleep(10 * time.Millisecond)
+	ds = sc.inputDescs()
+	if strings.Join(ds, ",") == strings.Join(want, ",") {
+		sc.tag("tail-wait-ok")
+		return
+	}
+	if gap := time.Duration(mainWorstGap.Load()); gap >= 35*time.Millisecond {
+		sc.tag("tail-wait-timing-missed")
+		return
+	}
+	if fi, fh := firstInjAt.Load(), mainFirstHeld.Load(); fi == 0 || fh == 0 || time.Duration(fi-fh) >= 35*time.Millisecond {
+		// the rest was never injected (a shrunk line), or reached the tty too long after the main loop was ready for it
+		sc.tag("tail-wait-timing-missed")
+		return
+	}
+	if time.Duration(mainLongestScan.Load()) < 60*time.Millisecond {
+		// the premise did not materialise: the queue took everything, the main loop was back at its select at once and the
+		// incomplete bytes then waited for the whole pause — a legitimate escape timeout
+		sc.tag("tail-wait-not-blocked")
+		return
+	}
+	sc.find("text-garbled-after-backpressure", "a read ended inside a multi-byte character while the application was not polling (event queue full for longer than the escape timeout); the main loop was blocked for %v on that read and the rest arrived %v after it was ready again (escape timeout: 50 ms): expected the events %s, delivered %s", time.Duration(mainLongestScan.Load()), time.Duration(mainWorstGap.Load()), clipList(want, 40), clipList(ds, 40))
+}
+
 // finalOracles: what holds in every run, whatever was shut down when.
 func (sc *scenario) finalOracles() {
 	got, gidx := sc.inputDelivered()
